@@ -7,6 +7,7 @@ import SonicModel.Lemmas.NodeBound
 import SonicModel.Lemmas.DomParseProof
 import SonicModel.Lemmas.NumSound
 import SonicModel.Lemmas.DomSound
+import SonicModel.Lemmas.DomPad
 namespace Sonic.Thm.C03
 open Sonic Gen Impl Spec
 
@@ -56,6 +57,16 @@ theorem dom_parser_emits_the_specification_tree (buf : Buf) (s e : Nat) (h : Spe
 theorem accepted_text_has_the_specification_tree (buf : Buf) (t : Json) (h : DomP.document buf = some t) :
     ∃ s e, Spec.document true buf = some (s, e) ∧ docTree false buf = some t :=
   DomP.strict_of_document buf t h
+
+/-- **… and for the whole-input path as the code composes it** (`Impl/DomPadded.lean`: the decoding parser on the padded copy
+    `t ++ x"x ++ zeros`, `n > len` ⇒ error, only blanks up to the end of the text): the tree it returns is the tree the TEXT `t`
+    denotes — the padding shows neither in what is accepted (`Thm/C02.whole_input_parse_on_the_padded_copy_accept_iff`) nor in
+    the tree (`Lemmas/GrammarPad.lean`: `tree_prefix`, `tree_mono`).  Its verdict is compared with `from_slice::<Value>` on
+    every case of the C02 stream (`m.domp`); the strings of the real parse are decoded in place in that buffer, which the
+    in-place decoder theorems of C09 equate with the model's decoder -/
+theorem whole_input_parse_returns_the_tree_of_the_text (t : Buf) (tr : Json) (h : DomP.fromSlicePadded t = some tr) :
+    docTree false t = some tr :=
+  DomP.fromSlicePadded_tree t tr h
 
 /-- … value by value (any fuel that suffices for the grammar suffices for the parser) -/
 theorem dom_parser_on_wellformed_value (buf : Buf) (f w e : Nat) (h : Spec.value true f buf w = .ok e) :
